@@ -1368,4 +1368,25 @@ theorem avg_roundtrip (t0 r0 : Rat) (rest : Scale) (hs : StrictSorted ((t0, r0) 
       simp only [g2, lt_irrefl, if_false]
       rfl
 
+/-! ### glue used by `Props/C09.lean` -/
+
+theorem tailNZ_of_nonneg {b : Scale} (hb : StrictSorted b) (hnn : ∀ c ∈ b, 0 ≤ c.1) : TailNZ b := by
+  cases b with
+  | nil => trivial
+  | cons a rest =>
+    intro c hc
+    have h1 := (strictSorted_cons.mp hb).1 c hc
+    have h2 := hnn a List.mem_cons_self
+    intro e
+    rw [e] at h1
+    linarith
+
+theorem calc_eq_incr (ε f : Rat) (hf : 0 < f + ε) (s : Scale) (hs : StrictSorted s) (x : Rat) :
+    calcMR ε f none s x = incr (thrMap ε f none) 0 s x := by
+  rw [clipSum_eq_incr _ (thrMap_strictMono ε f hf) s hs 0 x]
+  unfold calcMR
+  rw [decide_eq_true hf]
+  ring
+
+
 end OFCore.Sca
